@@ -177,12 +177,12 @@ class DistCase(Case):
     outside = ("torch.distributions' own densities and samplers (trusted base)", "that masked categories have probability exactly 0 (float underflow of exp(-1e8); the check decides that "
                "masked logits are the masking constant and legal logits are unchanged)")
 
-    def __init__(self, space, B=2, squash=False, masked=False, reeval=False):
-        self.space_name, self.B, self.squash, self.masked, self.reeval = space, B, squash, masked, reeval
+    def __init__(self, space, B=2, squash=False, masked=False, reeval=False, history="fresh"):
+        self.space_name, self.B, self.squash, self.masked, self.reeval, self.history = space, B, squash, masked, reeval, history
         self.space = SPACES[space]
-        self.name = f"dist-{space}-B{B}" + ("-squash" if squash else "") + ("-mask" if masked else "") + ("-reeval" if reeval else "")
+        self.name = f"dist-{space}-B{B}" + ("-squash" if squash else "") + ("-mask" if masked else "") + ("-reeval" if reeval else "") + ("" if history == "fresh" else f"-after-{history}")
         self.site = "EvolvableDistribution"
-        self.bounds = {"action_space": str(self.space), "batch": B, "squash_output": squash, "mask": masked, "re-evaluation_after_a_second_forward": reeval,
+        self.bounds = {"action_space": str(self.space), "batch": B, "squash_output": squash, "mask": masked, "re-evaluation_after_a_second_forward": reeval, "actor_history": history,
                        "symbolic": "logits, samples, mask, (second forward: new logits and samples)"}
         self._actor = None
 
@@ -191,6 +191,13 @@ class DistCase(Case):
             try:
                 self._actor = StochasticActor(spaces.Box(-1, 1, (2,)), self.space, encoder_config={"hidden_size": [2]}, head_config={"hidden_size": [2]},
                                               latent_dim=2, min_latent_dim=1, squash_output=self.squash, action_std_init=-0.5)
+                # the policy head must keep its distribution settings when the network is rebuilt or copied
+                if self.history == "recreate":
+                    self._actor.recreate_network()
+                elif self.history == "clone":
+                    self._actor = self._actor.clone()
+                elif self.history == "latent-mutation":
+                    self._actor.add_latent_node(numb_new_nodes=1)
             except Exception as ex:   # noqa: BLE001
                 raise HarnessError(f"could not build the actor: {type(ex).__name__}: {ex}")
         return self._actor
@@ -340,11 +347,94 @@ class DistCase(Case):
         return out
 
 
+class IPPOMaskRouting(Case):
+    """IPPO.get_action with per-agent action masks in `infos`: the mask row that reaches the shared policy for batch row r is
+    the mask of the (agent, env) whose observation is row r"""
+    stubs = ("actor / critic = stubs recording their inputs and returning fresh symbols",)
+    assumptions = ("observation labels pairwise distinct (rows are identified by their observation)",)
+
+    def __init__(self, A, E):
+        from agilerl.algorithms.ippo import IPPO
+        self.A, self.E = A, E
+        self.functions = (IPPO.get_action, IPPO.extract_action_masks, IPPO.preprocess_observation)
+        self.name = f"ippo-mask-routing-A{A}-E{E}"
+        self.site = "IPPO.extract_action_masks/row-order"
+        self.bounds = {"homogeneous_agents": A, "num_envs": E, "actions": 3, "symbolic": "observations, every mask entry"}
+        self._agent = None
+
+    def agent(self):
+        from agilerl.algorithms.ippo import IPPO
+        if self._agent is None:
+            try:
+                ids = [f"ag_{i}" for i in range(self.A)]
+                self._agent = IPPO([spaces.Box(-1, 1, (2,))] * self.A, [spaces.Discrete(3)] * self.A, agent_ids=ids)
+            except Exception as ex:   # noqa: BLE001
+                raise HarnessError(f"could not build IPPO: {type(ex).__name__}: {ex}")
+        return self._agent
+
+    def run(self, v):
+        import agilerl.algorithms.ippo as ippo_mod
+        import agilerl.utils.algo_utils as au
+        A, E, nA = self.A, self.E, 3
+        agent = self.agent()
+        ids = list(agent.agent_ids)
+        obs = {a: v.array(f"o_{a}", (E, 2)) for a in ids}
+        labels = [x for a in ids for x in elems(obs[a])]
+        for i in range(len(labels)):
+            for j in range(i):
+                v.assume(neg(eq(labels[i], labels[j])))
+        masks = {a: [[v.flag(f"m_{a}_{e}_{k}") for k in range(nA)] for e in range(E)] for a in ids}
+        infos = {a: {"action_mask": masks[a]} for a in ids}
+        seen = {}
+
+        class Actor:
+            squash_output = False
+
+            def __call__(self, x, action_mask=None):
+                n = x.shape[0]
+                seen["x"], seen["mask"] = x, action_mask
+                return v.tensor("act", (n,)), v.tensor("lp", (n,)), v.tensor("ent", (n,))
+
+            def eval(self):
+                return self
+
+            def train(self, m=True):
+                return self
+
+        class Critic(Actor):
+            def __call__(self, x):
+                return v.tensor("val", (x.shape[0], 1))
+
+        patches = [(agent, "actors", [Actor()]), (agent, "critics", [Critic()])]
+        if v.mode != "real":
+            patches += [(au, "torch", ShimTorch()), (ippo_mod, "torch", ShimTorch())]
+        with patched(*patches):
+            agent.get_action(obs, infos)
+        res = []
+        x, m = seen.get("x"), seen.get("mask")
+        res.append(Ob("policy-receives-a-mask-with-one-row-per-(agent,env)", x is not None and m is not None and x.shape[0] == A * E and int(np.prod(tuple(m.shape))) == A * E * nA))
+        if len(res) and res[-1].cond is not True and not res[-1].cond:
+            return res
+        m2 = m.reshape(A * E, nA)           # what EvolvableDistribution.apply_mask does: mask.view(logits.shape)
+        for a in ids:
+            for e in range(E):
+                row = None
+                for i in reversed(range(A * E)):
+                    hit = all_eq(x[i], obs[a][e])
+                    cand = [val(m2, i, k) for k in range(nA)]
+                    row = cand if row is None else [ite(hit, c, r) for c, r in zip(cand, row)]
+                res.append(Ob(f"{a}/env{e}/the-mask-applied-to-its-logits-is-its-own-mask", conj(*[eq(r, mk_) for r, mk_ in zip(row, masks[a][e])]), site=self.site))
+        return res
+
+
 def cases(tier):
     cs = [DistCase("discrete3"), DistCase("discrete3", masked=True), DistCase("multidiscrete23"), DistCase("multidiscrete23", masked=True),
           DistCase("multibinary3"), DistCase("box2"), DistCase("box2", squash=True), DistCase("box1", B=2),
           DistCase("discrete3", reeval=True), DistCase("multidiscrete23", reeval=True), DistCase("box2", reeval=True), DistCase("box2", squash=True, reeval=True),
-          DistCase("multibinary3", reeval=True)]
+          DistCase("multibinary3", reeval=True),
+          DistCase("box2", squash=True, history="recreate"), DistCase("box2", squash=True, history="clone"), DistCase("box2", history="latent-mutation"),
+          DistCase("discrete3", masked=True, history="clone"),
+          IPPOMaskRouting(2, 2), IPPOMaskRouting(3, 2)]
     if tier == "thorough":
         cs += [DistCase("discrete3", B=3, masked=True), DistCase("multidiscrete23", B=3, masked=True), DistCase("box2", B=3, squash=True), DistCase("box1", squash=True)]
     return cs
